@@ -92,21 +92,21 @@ CHECKS.update({
         category="exploration",
         technique="exhaustive enumeration of operation sequences with explicit pipeline steps on the real cache maps + deviation-bounded schedule exploration of reader/writer/pipeline threads",
         text=("H: every operation sequence to depth 5 (quick) / 6 (thorough) over writes into a fresh batch or two open batches, submits in any "
-              "order, explicit pipeline steps (serializer / committer / notifier runs until it blocks), a burst of 40 foreign keys (maintenance + "
-              "evictions) and reads, for the single, dynamic (two value types under one key) and key-to-set maps (also a set beyond the 1024 "
+              "order, explicit pipeline steps (serializer / committer / notifier runs until it blocks), 'submit and run the whole pipeline', three "
+              "further set elements through an older open batch, a burst of 40 foreign keys (maintenance + evictions) and reads, for the single, dynamic (two value types under one key) and key-to-set maps (also a set beyond the 1024 "
               "threshold), cache capacities 1/2/4 and three grouping policies, on the real DbBacked maps and write-behind threads; every read, a "
               "final read, and a read through fresh maps after shutdown are compared with plain reference maps. S: reader thread vs writer thread "
               "vs pipeline threads with <= 2 (3) deviations, reads must be at least as new as the last completed write."),
         design_ref="DESIGN.md 4/C09",
-        note=("Writes to one key are issued in batch-creation order (what the engine guarantees via the per-query exclusive lock). H moves the pipeline "
+        note=("Writes to one key / one (set key, element) pair are issued in batch-creation order (what the engine guarantees via the per-query exclusive lock); different elements of one set may come from batches in any order. H moves the pipeline "
               "only in 'thread runs until it blocks' steps; finer interleavings only in S. Known findings F4/F11 (stale cache fills) are reported as KNOWN-FINDING."),
     ),
     "C10": dict(
         category="exploration",
         technique="stateless model checking: deviation-bounded exhaustive DFS over the schedules of submitter, serializer, committer and notifier threads of the real WriteBehind",
         text=("All submission orders of 3 (thorough: also 4) batches created in one order and filled with overlapping keys through the cache maps, "
-              "2-3 submitter threads, 1-3 serializer workers, three grouping policies, every schedule with <= 2 (3) deviations; then the write "
-              "manager is dropped. On the store's commit log: every submitted operation exactly once, batches in creation order across physical "
+              "2-3 submitter threads, 1-3 serializer workers, three grouping policies, also with one batch that carries no write at all, every "
+              "schedule with <= 2 (3) deviations; then the write manager is dropped. On the store's commit log: every submitted operation exactly once, batches in creation order across physical "
               "commits, no logical batch split, final content == sequential application, drop returns after the last commit, no deadlock."),
         design_ref="DESIGN.md 4/C10",
         note="Scheduling points: channel operations, lock acquisitions, atomics, store commits; <= d deviations.",
@@ -150,7 +150,11 @@ CHECKS.update({
         text=("Every sequence to depth 6 (thorough 7) over {put, get, remove, pin, unpin (+notify), burst of 34 fresh keys} on 2-3 named keys for "
               "capacities 1/2/3/8 and both unpin strategies: pinned keys stay resident with their latest value, unpinned keys have the latest value "
               "or are absent, removed keys are absent, resident entries <= policy capacity + pinned + 33. S: two tasks take the exclusive lock of one "
-              "query twice each while a third touches 40-70 other queries on a lock table of capacity 1-2; a witness counter detects two holders."),
+              "query twice each while a third touches 40-70 other queries on a lock table of capacity 1-2; a witness counter detects two holders. "
+              "M: the cache itself from two threads (owner inserts pinned, updates, unpins; the other inserts 36 fresh keys and reads the owner's key), "
+              "<= 2 (3) deviations. R: every per-key micro-history of length <= 4 (5) over {put, get, pin, unpin, bare notification, remove, burst} "
+              "replicated over 60 keys (key set far larger than the capacity), then every pin released and 102 fresh keys inserted: leaks add up and "
+              "break the bound on resident entries."),
         design_ref="DESIGN.md 4/C16",
         note="Piggy-backed maintenance only; the frequency sketch and the intrusive list are exercised through the public API.",
     ),
@@ -167,7 +171,10 @@ CHECKS.update({
               "subset of 1-3 fields) to nesting depth 2 plus depth-3 chains (~870 types + the smallvec/bitvec feature build), and every value of each type's domain (8/16-bit integers and bool exhaustively, wider integers every "
               "value within +-2 of every 7-bit varint and zigzag boundary, chars at UTF-8 length boundaries, containers of length 0-3): "
               "decode(encode v) == v consuming exactly the written bytes; no encoding is a prefix of another value's (all values of a type sorted "
-              "by encoding); sliding triples written back to back are read back in sequence."),
+              "by encoding); sliding triples written back to back are read back in sequence. Collections also with 127 / 128 elements (two-byte "
+              "length prefix). Interned handles: every structure shape with repeated handles of one and of different types with equal content hash, "
+              "decoded with the same and a fresh interner. Thorough: +-32 around every 7-bit boundary, +-2 around every power of two, all sequences of "
+              "length <= 3 over four elements."),
         design_ref="DESIGN.md 4/C12",
         note="Container lengths <= 3 (+ selected long ones); the smallvec/bitvec feature build is covered by a second binary (vopt: SmallVec N=0/1/2/4, BitVec over 4 storage widths x 2 bit orders, every bit string to length 10 + boundary lengths to 129); interned handles are covered by C15. Fix F17 (BitVec round trip) is recorded in known_findings.json.",
     ),
@@ -203,7 +210,9 @@ CHECKS.update({
               "invariant is evaluated over all live handles of all threads: equal (type, value) => same allocation, content == value, different "
               "types never share, get_from_hash returns a canonical live handle or None. V: every structure shape (lists of 0-3 handles in every "
               "value pattern, optional handle, 0-2 texts, repeats in first/reference order) is encoded and decoded with the same and with a fresh "
-              "interner: values, sharing partition, canonicity, consumed bytes."),
+              "interner: values, sharing partition, canonicity, consumed bytes. Plus selected pairs of length-3 programs (a value whose handles were "
+              "all dropped is interned again while the other thread interns, looks up or vacuums) at <= 3 (4) deviations; thorough: every pair of "
+              "length-3 programs at <= 2 deviations (26 million schedules)."),
         design_ref="DESIGN.md 4/C15",
         note="2-3 threads (the statement's 2..16 threads is covered to 3); Arc strong/weak counter operations are scheduling points only at the handle clone/drop granularity (shuttle's Arc is std's).",
     ),
@@ -221,7 +230,9 @@ CHECKS.update({
               "every point read and every member scan of the universe is compared with the model; every cell deleted and rewritten alone in the "
               "full context; whole-universe batches; delete+put+delete inside one batch; reopen points. HISTORIES: every history of <= 3 "
               "single-operation batches, [2-operation batch, single] and [single, 2-operation batch] (mixed write paths), abandoned batches anywhere, "
-              "reopen after every step of <= 2-batch histories, whole universe compared after every step, touched cells read before every commit."),
+              "reopen after every step of <= 2-batch histories (second batch through either write path; also with NOTHING read between the reopen "
+              "and the next batch, so that the write is the first to touch its column in the new session), whole universe compared after every step, "
+              "touched cells read before every commit."),
         design_ref="DESIGN.md 4/C11",
         note=("Sequential, one handle; atomicity is observed as all-or-nothing visibility of committed / abandoned batches; a crash inside a native commit "
               "(torn write in RocksDB/Fjall) cannot be injected from here and is not explored. Each part runs in a child process: an abort inside a backend is a violation."),
